@@ -634,7 +634,10 @@ Definition f_first (pol : upolicy) (obj : val) : res val :=
   | VDict [] => Ok VNil
   | VDict _ => outside                       (* a (key, value) tuple *)
   | VList l => match l with x :: _ => Ok x | [] => Ok VNil end
-  | VUndef n => do _ <- poke pol DGetitem;; Ok (VUndef n)
+  | VUndef _ =>
+      (* an undefined is a Mapping: list(islice(obj.items(), 1)) reads the attribute
+         .items and iterates it; the empty list has no first item *)
+      do _ <- poke pol DAttr;; do _ <- poke pol DIter;; Ok VNil
   | _ => Ok VNil
   end.
 Definition f_last (pol : upolicy) (obj : val) : res val :=
@@ -709,7 +712,8 @@ Definition is_nil (v : val) : bool := match v with VNil => true | _ => false end
 Definition f_compact (pol : upolicy) (left : val) (key : option val) : res val :=
   do items <- sequence_arg pol left;;
   match key with
-  | None | Some VNil => Ok (VList (filter (fun v => negb (is_nil v)) items))
+  | None | Some VNil | Some (VUndef _) =>          (* key is None or is_undefined(key): no key *)
+      Ok (VList (filter (fun v => negb (is_nil v)) items))
   | Some k =>
       do r <- filterM (fun itm =>
                          match py_getitem pol itm k with
@@ -836,6 +840,8 @@ Definition apply_filter (pol : upolicy) (f : fname) (left : val)
   | FCompact, [], [] => f_compact pol left None
   | FCompact, [k], [] => f_compact pol left (Some k)
   | FUniq, [], [] => f_uniq pol left
+  | FUniq, [k], [] =>                              (* uniq: nil / uniq: missing: no key; keyed uniq is outside *)
+      match k with VNil | VUndef _ => f_uniq pol left | _ => outside end
   | FSum, [], [] => f_sum pol left None
   | FSum, [k], [] => f_sum pol left (Some k)
   | FSlice, [s], [] => f_slice pol left s (VInt 1)
